@@ -311,4 +311,11 @@ def r5_assignment_is_local(ctx):
     ctx.check(ok, gt.qual, "get = attrgetter(key)(self)" if ok else "get() resolves the key differently", where=gt, node=gt.node)
 
 
-RULES = [r1_arguments_refuse_unknown, r2_set_is_existence_checked, r3_single_resolution_rule, r4_validate_steps, r5_assignment_is_local]
+def r6_assignment_does_not_leak_through_copies(ctx):
+    """Sweeps, calibration and replace() assign through keys on a deep copy of the processor: the copy hooks (Processor.__deepcopy__, ModelGroup.__deepcopy__) must copy every slot, otherwise assigning a key on one run's processor also changes the caller's configuration and other runs (same obligations as C06.R3, which is where the sharing would originate)."""
+    from props.C06 import r3_deepcopy_completeness
+
+    r3_deepcopy_completeness(ctx)
+
+
+RULES = [r6_assignment_does_not_leak_through_copies, r1_arguments_refuse_unknown, r2_set_is_existence_checked, r3_single_resolution_rule, r4_validate_steps, r5_assignment_is_local]
